@@ -34,7 +34,23 @@ class Coder09(VCoder):
             out.append(line)
         return '\n'.join(out)
 
+    @staticmethod
+    def shared(n):
+        """One state in five uses one and the same code text as its precondition, as its whole entry code and as the guard of its
+        unguarded transitions (a call that is an expression and a statement): which use comes first depends on whether
+        contracts are checked, and may not matter."""
+        import zlib
+        return zlib.crc32(('sh:' + n).encode()) % 5 == 0
+
+    def guard(self, ch, t):
+        g = VCoder.guard(self, ch, t)
+        if g is None and self.shared(t['source']):
+            return 'SH(%r)' % t['source']
+        return g
+
     def entry(self, ch, n):
+        if self.shared(n):
+            return 'SH(%r)' % n
         return self._mark(VCoder.entry(self, ch, n))
 
     def exit(self, ch, n):
@@ -44,6 +60,8 @@ class Coder09(VCoder):
         return self._mark(VCoder.action(self, ch, t))
 
     def cond(self, ch, owner_is_transition, cid, kind):
+        if kind == 'pre' and not owner_is_transition and self.shared(cid.rsplit('.', 1)[0]):
+            return 'SH(%r)' % cid.rsplit('.', 1)[0]
         c = VCoder.cond(self, ch, owner_is_transition, cid, kind)
         if kind == 'inv' and not owner_is_transition:
             # at the end of a step sent(name) holds exactly for the names the code sent or notified during the step:
@@ -137,10 +155,14 @@ def run_case(acc, rnd, tier, case):
         acc.count('runs_with_ticking_clock')
     for ignore in (False, True):
         sc, tmap = build.build_api(ch, coder=CODER)
+        if not ignore:
+            acc.count('states_sharing_one_text_as_precondition_entry_and_guard',
+                      sum(1 for st_ in sc.states if CODER.shared(st_) and sc.state_for(st_).preconditions
+                          and any(t_.guard == 'SH(%r)' % st_ for t_ in sc.transitions_from(st_))))
         pr = Probes(val=make_val(valseed, p_true))
         pr.cond_plan = cond_plan
         pr.names = []
-        it = Interpreter(sc, initial_context=pr.context(v=0, box=Box(), lst=[], _p=0, res={'h': Handle()}, mathmod=os, cnt=__import__('collections').Counter(), SN=pr.names.append,
+        it = Interpreter(sc, initial_context=pr.context(v=0, box=Box(), lst=[], _p=0, res={'h': Handle()}, mathmod=os, cnt=__import__('collections').Counter(), SH=lambda tag: True, SN=pr.names.append,
                                                         N=lambda name, _l=pr.names: name in _l), ignore_contract=ignore,
                          evaluator_klass=EagerEvaluator if eager else PythonEvaluator, clock=ticking_clock() if ticking else None)
         it.attach(pr.listener())
